@@ -135,6 +135,9 @@ func (z *zipkinDecoderV2) decodeSpan(rawSpan jx.Raw) error {
 	if err != nil {
 		return custom_errors.NewUnmarshalError(err)
 	}
+	if len(z.traceId) != 16 || len(z.spanId) != 8 {
+		return custom_errors.New400Error("span must have a traceId and an id")
+	}
 	z.key = append(z.key, "service.name")
 	z.val = append(z.val, z.serviceName)
 	return z.onSpan(z.traceId, z.spanId, z.timestampNs, z.durationNs, z.parentId,
